@@ -52,3 +52,16 @@ pub fn vx_read_to_string(f: &mut VxFile, buf: &mut String) -> TeraResult<usize> 
 /// `name.as_ref().map(AsRef::as_ref)`
 #[verifier::external_body]
 pub fn vx_opt_as_str(o: &Option<String>) -> (r: Option<&str>) ensures r is Some == o is Some, o is Some ==> r->Some_0@ == o->Some_0@ { unimplemented!() }
+// the global component table (HashMap<String, (ComponentDefinition, Chunk)>) with std's contracts
+#[verifier::external_body]
+pub struct VxComponentEntry { _p: () }
+pub type VxComponents = HashMap<String, VxComponentEntry>;
+impl HashMap<String, VxComponentEntry> {
+    /// `extend`: union, the argument's entries win
+    #[verifier::external_body]
+    pub fn extend(&mut self, other: VxComponents)
+        ensures final(self).view_spec() == old(self).view_spec().union_prefer_right(other.view_spec())
+    { unimplemented!() }
+    #[verifier::external_body]
+    pub fn clear(&mut self) ensures final(self).view_spec() == Map::<Name, VxComponentEntry>::empty() { unimplemented!() }
+}
